@@ -16,7 +16,42 @@ let rec canon_jv (j : jvalue) : string =
   | JArr l -> "[" ^ String.concat "," (List.map canon_jv l) ^ "]"
   | JObj m -> "{" ^ String.concat "," (List.map (fun (k, x) -> "\"" ^ (if k = [] then "" else hex_of_bstr k) ^ "\":" ^ canon_jv x) m) ^ "}"
 
+(* code-unit strings: 4 hex digits per unit *)
+let units_of_hex4 (s : string) : n list =
+  if s = "-" then [] else List.init (String.length s / 4) (fun i -> n_of_int (int_of_string ("0x" ^ String.sub s (4 * i) 4)))
+let hex4_of_units (l : n list) : string =
+  if l = [] then "-" else String.concat "" (List.map (fun c -> Printf.sprintf "%04x" (int_of_n c)) l)
+let u_helper (fn : string) (x : n list) (args : string list) : n list outcome =
+  match fn, args with
+  | "escapeJsString", [] -> Ok (u_escape_js_string x)
+  | "escapeUri", [] -> u_escape_uri x
+  | "escapeHtml", [] -> Ok (u_escape_html x)
+  | "changeNewlineToBr", [] -> Ok (u_change_newline_to_br x)
+  | "insertWordBreaks", [k] -> Ok (u_insert_word_breaks x (z_of_int (int_field k)))
+  | "truncate", [k; e] -> Ok (u_truncate x (z_of_int (int_field k)) (e = "T"))
+  | _ -> failwith ("u_helper: " ^ fn)
+
 let () =
+  (* a soyutils.js helper on a code-unit string: u_helper <fn> <hex4 units> args... *)
+  register "u_helper" (fun a -> match a with
+    | fn :: x :: args -> outcome_s (fun v -> [hex4_of_units v]) (u_helper fn (units_of_hex4 x) args)
+    | _ -> failwith "u_helper: arity");
+  (* the helper on every single code unit 0..65535: results joined by "," ("!" = throws) *)
+  register "u_helper_all" (fun a -> match a with
+    | [fn] ->
+        let buf = Buffer.create (1 lsl 20) in
+        for u = 0 to 65535 do
+          if u > 0 then Buffer.add_char buf ',';
+          (match u_helper fn [n_of_int u] [] with
+           | Ok v -> Buffer.add_string buf (if v = [] then "" else hex4_of_units v)
+           | _ -> Buffer.add_char buf '!')
+        done;
+        [Buffer.contents buf]
+    | _ -> failwith "u_helper_all: arity");
+  (* the proved readers on a helper's output *)
+  register "jsu_read" (fun a -> match a with
+    | [q; x] -> (match jsu_read (n_of_int (int_field q)) (units_of_hex4 x) with Some v -> ["some"; hex4_of_units v] | None -> ["none"])
+    | _ -> failwith "jsu_read: arity");
   (* json of a value (sexp, possibly several fields): Model/JsonEncode.v on the tree's nil-collection flag *)
   register "c16_json" (fun a ->
     let v = Sexp_ast.value_of (Sexp.parse (String.concat " " a)) in
